@@ -903,8 +903,9 @@ def literal_schema(rng, hazard_rate=0.5):
 
 def literal_probes():
     """one small schema per literal / include / header-type class (fixed list, part of every run)"""
-    def mini(hdr_prim=None, dim=None, var_len=None, extra_types=(), fields=(), groups=(), datas=(), **kw):
+    def mini(hdr_prim=None, dim=None, var_len=None, extra_types=(), fields=(), groups=(), datas=(), hdr_extra=(), **kw):
         types = std_headers()
+        types[0]['elems'] += list(hdr_extra)
         for e in types[0]['elems']:
             if hdr_prim and e['name'] in hdr_prim:
                 e['prim'] = hdr_prim[e['name']]
@@ -948,6 +949,22 @@ def literal_probes():
         mini(extra_types=[{'k': 'enum', 'name': 'E', 'enc': 'uint8', 'values': [{'name': 'A', 'value': '1'}, {'name': 'B', 'value': '1'}]}]),
         mini(extra_types=[{'k': 'enum', 'name': 'E', 'enc': 'uint8', 'values': [{'name': 'A', 'value': '1'}, {'name': 'B', 'value': '01'}]}]),
         mini(extra_types=[{'k': 'enum', 'name': 'E', 'enc': 'char', 'values': [{'name': 'A', 'value': 'x'}, {'name': 'B', 'value': 'x'}]}]),
+        # c7e26c2: the same value written differently, and an enum defined inside a composite
+        mini(extra_types=[{'k': 'enum', 'name': 'E', 'enc': 'int8', 'values': [{'name': 'A', 'value': '-0'}, {'name': 'B', 'value': '0'}]}]),
+        mini(extra_types=[{'k': 'enum', 'name': 'E', 'enc': 'uint16', 'values': [{'name': 'A', 'value': '0'}, {'name': 'B', 'value': '7'},
+                                                                                  {'name': 'C', 'value': '007'}]}]),
+        mini(extra_types=[{'k': 'enum', 'name': 'E', 'enc': 'int8', 'values': [{'name': 'A', 'value': '-1'}, {'name': 'B', 'value': '1'},
+                                                                                {'name': 'C', 'value': '10'}, {'name': 'D', 'value': '010'}]}]),
+        mini(extra_types=[{'k': 'composite', 'name': 'C', 'elems': [
+            {'k': 'enum', 'name': 'E', 'enc': 'uint8', 'values': [{'name': 'A', 'value': '2'}, {'name': 'B', 'value': '2'}]}]}],
+            fields=[{'name': 'c', 'id': 1, 'type': 'C'}]),
+        # bf3e3ae / ceb9ad3: the optional counters
+        mini(hdr_extra=[{'k': 'type', 'name': 'numGroups', 'prim': 'float'}, {'k': 'type', 'name': 'numVarDataFields', 'prim': 'uint8'}],
+             groups=[g1]),
+        mini(hdr_extra=[{'k': 'type', 'name': 'numGroups', 'prim': 'uint8'}, {'k': 'type', 'name': 'numVarDataFields', 'prim': 'uint8'}],
+             groups=[g1], datas=[d1]),
+        mini(dim={'blockLength': 'uint8'}, groups=[dict(g1, blockLength=300)]),
+        mini(dim={'blockLength': 'int8'}, groups=[dict(g1, blockLength=128)]),
         mini(desc='say "hi"'), mini(desc='back\\slash'), mini(desc='trailing\\'), mini(desc='l1\nl2'), mini(desc='t\tt'),
         mini(desc='what??/'), mini(desc='a??/b'), mini(desc='café 日本'), mini(desc='R"(x)"'), mini(semanticVersion='1"2'),
         dict(mini(), packageText='p"q', schemaName='ns'), dict(mini(), packageText='com.example', schemaName='ns'),
